@@ -10,8 +10,7 @@
        spec: race=0 and (lin=1 when a history was recorded).  The recorded history is searched for a
        linearization HERE as well, against sequential objects extracted from Coq: wlru = model/Wlru.v (C29),
        sem = model/Semaphore.v (C30), flushable/lazy = model/LinObjects.fl_step over model/Flushable.v (C22),
-       pool = model/LinObjects.pl_step over model/SyncedPool.v + CrashBase.v (C25); only buffer is checked by
-       the harness's own reference alone.  A case is admissible only if both searches find a linearization. *)
+       pool = model/LinObjects.pl_step over model/SyncedPool.v + CrashBase.v (C25), buffer = model/Buffer.v (C14).  A case is admissible only if both searches find a linearization. *)
 open Model
 open Conv
 open Drv
@@ -204,6 +203,36 @@ let pl_apply (st : pstate) (op : string list) : pstate * string =
 let pool_start : pstate =
   List.fold_left (fun st o -> fst (pl_step flag_key st o)) p_init [POpen (nm "a"); PUnder (nm "a"); POpen (nm "b"); PUnder (nm "b")]
 
+(* ---- C14 ordering buffer (model/Buffer.v, repaired version; the harness's callbacks never fail).
+   The observation carries the events:  dag=<limitNum>/<limitSize>/<i>:<parent.parent>:<size>;... *)
+type bdag = { blimN : n; blimS : n; bpars : n list array; bsize : n array }
+let parse_dag (obs : string list) : bdag option =
+  match find_prefix "dag=" obs with
+  | "" -> None
+  | d ->
+    (match split_char '/' d with
+     | [ln; ls; evs] ->
+       let es = List.filter (fun x -> x <> "") (split_char ';' evs) in
+       let parsed = List.map (fun e -> match split_char ':' e with
+           | [_; ps; sz] -> (List.map n_of_tok (List.filter (fun x -> x <> "") (split_char '.' ps)), n_of_tok sz)
+           | _ -> ([], n_of_tok "0")) es in
+       Some { blimN = n_of_tok ln; blimS = n_of_tok ls;
+              bpars = Array.of_list (List.map fst parsed); bsize = Array.of_list (List.map snd parsed) }
+     | _ -> None)
+
+let never _ _ = false
+let buf_apply (d : bdag) (st : st) (op : string list) : st * string =
+  let step o = buf_step never never true d.blimN d.blimS st o in
+  match op with
+  | ["Push"; i] ->
+    let k = int_of_string i in
+    let st' = step (OpPush (n_of_tok i, d.bpars.(k), d.bsize.(k))) in
+    (st', (match buf_log st' with OPushed (_, ok, _, _) :: _ -> b01 ok | _ -> "?"))
+  | ["Clear"] -> (step OpClear, "ok")
+  | ["Total"] -> (st, num (buf_num (buf_inc st)) ^ "," ^ num (buf_size (buf_inc st)))
+  | ["IsBuffered"; i] -> (st, b01 (List.exists (fun e -> buf_eid e = n_of_tok i) (buf_inc st)))
+  | _ -> (st, "?")
+
 let rec after_h = function [] -> [] | "H" :: r -> r | _ :: r -> after_h r
 
 (* Some b = verdict of the search against the extracted model; None = component without one here *)
@@ -222,6 +251,13 @@ let extracted_lin (inp : string list) (obs : string list) : bool option =
     Some (linearizable fl_apply f_init (parse_history (after_h obs)))
   | ["LIN"; "pool"; _; _; _] ->
     Some (linearizable pl_apply pool_start (parse_history (after_h obs)))
+  | ["POOLMID"] ->
+    let st3 = List.fold_left (fun st o -> fst (pl_step flag_key st o)) pool_start [POpen (nm "c"); PUnder (nm "c")] in
+    Some (linearizable pl_apply st3 (parse_history (after_h obs)))
+  | ["LIN"; "buffer"; _; _; _] | ["EBMID"] ->
+    (match parse_dag obs with
+     | Some d -> Some (linearizable (buf_apply d) buf_st0 (parse_history (after_h obs)))
+     | None -> None)
   | _ -> None
 
 let eval inp obs =
@@ -237,7 +273,10 @@ let eval inp obs =
       note = (if bad = [] then "" else "rows violating the lock discipline: " ^
                 String.concat "," (List.map (fun (ty, m, _, _) -> ty ^ "." ^ m) bad)) ^
              (if missing = [] then "" else " methods without a row: " ^ String.concat "," missing) }
-  | kind :: _ when kind = "LIN" || kind = "STRESS" || kind = "EBMID" || kind = "SNAPMID" ->
+  | _ when has_tok "skipped=1" obs ->
+    { default_verdict with model_obs = obs; indeterminate = true; nontrivial = false;
+      note = "not run: the component hung or crashed three times earlier in this run" }
+  | kind :: _ when kind = "LIN" || kind = "STRESS" || kind = "EBMID" || kind = "SNAPMID" || kind = "POOLMID" ->
     let race = not (has_tok "race=0" obs) in
     let crash = has_tok "crash=1" obs || has_tok "hang=1" obs in
     let wants_lin = kind <> "STRESS" in
